@@ -149,6 +149,9 @@ func genExpandCase(t *Tape, big bool) ([]Tuple, SetRef) {
 		x := Tuple{NS: from.NS, Obj: from.Obj, Rel: from.Rel}
 		if t.Bool(2, 5) {
 			x.Sub = Subject{ID: fmt.Sprintf("u%d", t.Choose(5))}
+			if t.Bool(1, 12) {
+				x.Sub = Subject{ID: ""} // the empty string is a legal name
+			}
 		} else {
 			s := mk()
 			if t.Bool(1, 6) {
